@@ -788,6 +788,43 @@ def presence_report(m, cls, depth: int = 0) -> list:
 
 def build_message(tape):
     """The construction recipe.  Run twice on the same decisions it yields two independent, equal objects."""
+    cls, m, how = _build_message(tape)
+    if tape.draw(3, "bytearray?") == 2:
+        # a bytes field may hold any bytes-like value a caller assigned - a bytearray is the mutable one
+        how += _bufferize(m, cls, tape)
+    return cls, m, how
+
+
+def _bufferize(m, cls, tape) -> str:
+    holders = [m]
+    for fi in class_info(cls).fields:
+        if fi.proto_type == "message" and not fi.wraps and not fi.group and not fi.optional and not fi.repeated \
+                and not fi.is_map and isinstance(fi.py_cls, type) and issubclass(fi.py_cls, betterproto.Message):
+            holders.append(getattr(m, fi.name))
+    spots = []
+    for h in holders[:4]:
+        for fi in class_info(type(h)).fields:
+            if fi.proto_type != "bytes" or fi.is_map:
+                continue
+            try:
+                v = getattr(h, fi.name)
+            except AttributeError:
+                continue
+            if fi.repeated:
+                spots += [(h, fi.name, i) for i, x in enumerate(v) if type(x) is bytes]
+            elif type(v) is bytes:
+                spots.append((h, fi.name, None))
+    if not spots:
+        return ""
+    h, name, i = spots[tape.draw(len(spots), "bytearray-where")]
+    if i is None:
+        setattr(h, name, bytearray(getattr(h, name)))
+    else:
+        getattr(h, name)[i] = bytearray(getattr(h, name)[i])
+    return f" +bytearray in {type(h).__name__}.{name}"
+
+
+def _build_message(tape):
     cls = tape.choice(C14_CLASSES, "cls")
     how = tape.draw(4, "build-how")
     g = Gen(tape, unlisted_enums=(how != 2))
@@ -984,6 +1021,20 @@ class _ObserverRun:
         ci = class_info(cls)
         g = Gen(t)
         done = []
+        # a mutable buffer held in a bytes field is changed in place first, when there is one
+        for fi in ci.fields:
+            if fi.proto_type != "bytes" or fi.is_map:
+                continue
+            try:
+                v = getattr(c, fi.name)
+            except AttributeError:
+                continue
+            bufs = [x for x in (v if fi.repeated else [v]) if isinstance(x, bytearray)]
+            if bufs and t.draw(3, "buffer-mut-first") != 0:
+                bufs[0].extend(b"\x7e")
+                done.append(f"{fi.name}: bytearray.extend")
+                if count:
+                    self.stats["probe:mutated-bytearray-of-copy-in-place"] += 1
         for _ in range(1 + t.draw(4, "n-mut")):
             if not ci.fields:
                 break
@@ -1006,6 +1057,16 @@ class _ObserverRun:
                         key = sorted(cur, key=repr)[0] if (cur and t.draw(2, "map-overwrite")) else g.scalar(kt, in_container=True, nonempty_str=True)
                         cur[key] = g.message(fi.map_value_cls, 2) if vt == "message" else g.scalar(vt, fi.map_value_cls, in_container=True)
                         done.append(f"{fi.name}[k]=…")
+                elif isinstance(cur, bytearray) and t.draw(2, "buffer-mut"):
+                    cur.extend(b"\x7f")          # in place: no __setattr__ of any message is involved
+                    done.append(f"{fi.name}.extend")
+                    if count:
+                        self.stats["probe:mutated-bytearray-of-copy-in-place"] += 1
+                elif fi.repeated and isinstance(cur, list) and cur and isinstance(cur[0], bytearray) and t.draw(2, "buffer-mut"):
+                    cur[0].extend(b"\x7f")
+                    done.append(f"{fi.name}[0].extend")
+                    if count:
+                        self.stats["probe:mutated-bytearray-of-copy-in-place"] += 1
                 elif fi.repeated and isinstance(cur, list):
                     if cur and isinstance(cur[0], betterproto.Message) and t.draw(2, "list-mut-elem"):
                         sub = class_info(type(cur[0])).fields
